@@ -36,6 +36,11 @@ fn run_scenario(out: &mut Out, scn: &Value, with_dfs: bool) {
         for v in 0..nv {
             vtxt.push_str(&format!("{},0.0,0.0\n", v));
         }
+        // half of the files end without a final newline (the last row is a row all the same)
+        if (nv + ne) % 2 == 0 {
+            etxt.pop();
+            vtxt.pop();
+        }
         std::fs::write(&ep, etxt).unwrap();
         std::fs::write(&vp, vtxt).unwrap();
         routee_compass_core::model::network::graph::Graph::from_files(&ep, &vp, None, None, Some(false)).expect("graph files")
